@@ -10,6 +10,11 @@ CONFIG = {
          "quick": ["-cases", "2500", "-ops", "30", "-exhaustive", "3", "-exhaustive-limit", "40000", "-multiset", "4", "-multiset-app", "4"],
          "thorough": ["-cases", "50000", "-ops", "40", "-exhaustive", "6", "-exhaustive-limit", "1100000", "-multiset", "5", "-multiset-app", "4"],
          "timeout_thorough": 6000},
+        # the timeout clause at the level of the real roothash application's EndBlock (processRoundTimeouts):
+        # after EndBlock of height h no non-suspended runtime has a round timer at a height <= h
+        {"name": "rhdrv", "needs_model": False, "corpus": False,
+         "quick": ["-spec", "c11", "-cases", "2500", "-blocks", "30"],
+         "thorough": ["-spec", "c11", "-cases", "40000", "-blocks", "40"]},
     ],
     "trusted_base": [
         "Lean 4.33 kernel (axioms per theorem listed under coverage.axioms; at most propext, Classical.choice, Quot.sound)",
@@ -18,6 +23,7 @@ CONFIG = {
         "Ed25519 signatures, CBOR and hashing are the real Go code in the harness; the model consumes only (node, scheduler, round, vote-hash number, failure flag), i.e. header hashes are assumed collision-free on the generated headers (the harness numbers distinct hashes distinctly)",
     ],
     "assumptions": [
+        "height + RoundTimeout does not overflow int64 (the registry accepts any positive RoundTimeout; with MaxInt64 the computed timer is negative and can never fire: counted by rhdrv as c11:timer-overflowed-int64, a corner of parameter validation outside this property's quantifier)",
         "rule theorems are stated for histories admitted through VerifyExecutorCommitment (correct round, a scheduler never submits a failure) and for rounds with round + |committee| < 2^64 (uint64 `round + idx` in SchedulerRank does not wrap); the wrap-around counterexample is recorded in Props/C11.lean",
         "the committee, the round and the runtime are fixed during a round (the pool is reset on every block and epoch transition)",
         "failure codes are collapsed to one bit in the model (EC.failure = IsIndicatingFailure); which code was on the wire and what ValidateBasic made of it travels in the line protocol (wire field 0/1/2, fail field from the real commitment), pooldrv generates every code (unknown, state-unavailable, out of range) from schedulers and workers, and the rule check `scheduler's own failure-indicating commitment accepted` is evaluated on what the real code admitted",
